@@ -12,7 +12,7 @@ RULE = ('Exhaustive: all 128x128 ordered pairs of type sets (cast, can_be, commu
         'triples; every call goes through the D monitor on the real DataType methods and is judged against '
         'a frozenset model. A case is non-trivial when no operand is the empty set or ANY; distinct = '
         'distinct (operation, operand codes).')
-RULE_ADDED = " Since the seeding rounds: node-level narrowing on var/field nodes inside the kind's default set; fresh-process probes (new interpreter, operands built from base members, the operation under test first)."
+RULE_ADDED = " Since the seeding rounds: node-level narrowing on var/field nodes inside the kind's default set; fresh-process probes (new interpreter, operands built from base members, the operation under test first); union called with generators, iterators, maps, lists, tuples and dict views (the monitor hands the callee the same kind of iterable)."
 ASSUMPTIONS = [
     'the seven base types are the documented ones (BOOL NUMBER STRING ARRAY RANGE SET MESSAGE); type sets are '
     'identified through the base members by name, not by integer value',
@@ -167,7 +167,10 @@ def run(ctx):
     for _ in range(n_unions):
         k = rng.randrange(0, 5)
         idx = [rng.randrange(128) for _ in range(k)]
-        u = DataType.union(members[i] for i in idx)
+        ops = [members[i] for i in idx]
+        form = rng.randrange(6)  # the signature takes any iterable: one-shot and re-iterable ones alike
+        u = DataType.union((m for m in ops) if form == 0 else ops if form == 1 else tuple(ops) if form == 2
+                           else iter(ops) if form == 3 else map(lambda m: m, ops) if form == 4 else dict.fromkeys(ops))
         exp = frozenset().union(*[subsets[i] for i in idx]) if idx else frozenset()
         ctx.evaluation('union/' + '/'.join(map(str, sorted(set(idx)))), nontrivial=k >= 2)
         ctx.count('unions_judged')
